@@ -18,6 +18,11 @@ state is unchanged.  `new_cells` sends the name given AND the name of the formul
 (`St.newCellsNamed`); references handed to `new_space(refs=...)` travel with the operation.
 
 `space.rename(name)` is the model's `renamespace` (Struct/MechRename.lean).
+The calls that create several members (`batch_api`): new_cells_from_pandas / _csv are `cellsbatch` (`St.newCellsBatch`:
+every name checked in the state the call was given, then created), new_cells_from_module / import_funcs `modulebatch`,
+new_space_from_pandas / _csv `spacebatch` (names, then the space, then the cells), import_module / new_space_from_module
+`spacemodule` - the space first, then the functions: a refused module leaves the space, in the model as in the code
+(Struct/MechBatch.lean).  `Space.copy` is not in the model.
 Vocabulary not in the model (object-valued references and their relative rebinding): the
 correspondence of a history ends at the first such edit that the implementation accepts.  It also ends, without a
 report of its own, at an edit that is an instance of a known finding on which the model (which describes the repaired
@@ -29,6 +34,7 @@ import re
 from . import core
 from . import structworld as W
 from . import struct_api_gen as api
+from . import batch_api
 
 NONSTRUCT = ("eval", "evalall", "set_value", "clear", "clear_all", "clear_at", "allow_none", "set_param", "eval_item")
 
@@ -110,8 +116,14 @@ class MechCorr:
         self.pre_cells = None
         self.pre_canadd = True
         self.pre_defined_ref = False
+        self.pre_state = None
         if not self.alive:
             return
+        if op[0] == "copy_space":
+            try:
+                self.pre_state = impl_state(live.m, Interner())
+            except Exception:   # noqa
+                self.pre_state = None
         if op[0] == "set_cached":
             try:
                 self.noop = bool(live.space(op[1]).cells[op[2]].is_cached) == bool(op[3])
@@ -251,6 +263,8 @@ class MechCorr:
                     f = ["delspace", op[1]]
                 else:
                     f = ["delglobal", op[1]]
+            elif kind in batch_api.KINDS:
+                f = self._batch(live, op, acc, cpay, UNM)
             else:
                 f = UNM if acc else None
         except Exception:   # noqa  (malformed op of the bad stream)
@@ -273,6 +287,39 @@ class MechCorr:
             return
         self._emit(" ".join(f), "acc" if acc else "rej", k)
         self._emit("obs", impl_state(m, self.intern), k)
+
+    def _batch(self, live, op, acc, cpay, UNM):
+        """the model line of a call that creates several members (None: not compared; ["obs"]: state only)"""
+        kind = op[0]
+
+        def es(path, names):
+            return ",".join("%s=%d" % (n, cpay(path, n) if acc else 0) for n in names) if names else "-"
+        if kind == "copy_space":
+            # not in the model: the correspondence ends unless the call was refused and changed nothing
+            if acc or self.pre_state is None or impl_state(live.m, Interner()) != self.pre_state:
+                return UNM
+            return None
+        if kind == "batch_cells_pandas":
+            return ["cellsbatch", op[1], es(op[1], batch_api.resolved_names(op[2], op[3]))]
+        if kind == "batch_space_pandas":
+            path = op[2] if op[1] == "-" else op[1] + "." + op[2]
+            return ["spacebatch", op[1], op[2], es(path, batch_api.resolved_names(op[3], op[4]))]
+        funcs = op[2] if kind == "batch_cells_module" else op[3]
+        names = sorted(n for n, _ in funcs)
+        twin = any(fk == "twin" for _, fk in funcs)
+        if any(not api.valid_name(n) for n in names):
+            return UNM if acc else None      # a cells named automatically: which one it is is not looked up here
+        if kind == "batch_cells_module":
+            if twin:
+                # a formula modelx cannot take: a reason for refusal the model does not know; nothing may have changed
+                return UNM if acc else ["obs"]
+            return ["modulebatch", op[1], es(op[1], names)]
+        first = batch_api.import_module_checks_first()
+        if twin:
+            # ... here the space-first code leaves the space behind (known finding), the model knows no reason to refuse
+            return (UNM if acc else ["obs"]) if first else UNM
+        path = op[2] if op[1] == "-" else op[1] + "." + op[2]
+        return ["spacemodulechecked" if first else "spacemodule", op[1], op[2], self.csv(op[5] if len(op) > 5 and op[5] else []), es(path, names)]
 
     def finish(self, out, hist_of, stats=None):
         if len(self.lines) <= 1:
